@@ -21,7 +21,7 @@ package commodity
 //@ func (*Registry).Create
 //@   requires wfCommodities(as) && inText(a.Range)
 //@   modifies as.index[*]
-//@   ensures wfCommodities(as) && (result.1 == nil ==> result.0 != nil)
+//@   ensures wfCommodities(as) && (result.1 == nil ==> result.0 != nil && result.0.name == a.Text[a.Start:a.End])
 //@   ensures forall n string :: {key(as.index, n)} old(n in as.index) ==> (n in as.index) && as.index[n] == old(as.index[n])
 //
 //@ func (*Registry).MustGet
